@@ -1,6 +1,8 @@
 // C10: ThreadPool under controlled schedules (mode=serial, dsched shims; deadlock =
 // no runnable thread) and under real threads with timing jitter (mode=jitter, TSan/ASan).
 //
+// (The harness's own atomics - ids, run counters, the ticket clock - are relaxed, so that they add no
+// happens-before edges of their own and TSan judges the pool's synchronisation alone.)
 // Every job has a unique id and records (enqueue call, enqueue return, start, end)
 // tickets and an execution counter; waiters record (call, return) tickets.
 //   * no job runs twice; after a loop_until_empty() on a non-terminated pool every job
@@ -59,7 +61,7 @@ ClosureGuard::~ClosureGuard() { pause_point(); rec->destroyed = dsched::tick(); 
 
 //! enqueue a job that may enqueue children
 static void spawn(World& w, int depth, unsigned fanout, unsigned pauses) {
-    size_t id = w.next.fetch_add(1);
+    size_t id = w.next.fetch_add(1, std::memory_order_relaxed);
     if (id >= w.jobs.size()) return;
     JobRec& j = w.jobs[id];
     j.depth = depth;
@@ -68,7 +70,7 @@ static void spawn(World& w, int depth, unsigned fanout, unsigned pauses) {
     w.pool->enqueue([&w, id, depth, fanout, pauses, guard]() {
         JobRec& me = w.jobs[id];
         me.start = dsched::tick();
-        me.runs.fetch_add(1);
+        me.runs.fetch_add(1, std::memory_order_relaxed);
         for (unsigned p = 0; p < pauses; ++p) pause_point();
         me.plain = (int)id + 1;
         if (depth > 0)
@@ -81,7 +83,7 @@ static void spawn(World& w, int depth, unsigned fanout, unsigned pauses) {
 
 static bool check_jobs_once(const World& w, size_t upto, bool must_have_run, const std::string& when) {
     for (size_t i = 0; i < upto; ++i) {
-        int r = w.jobs[i].runs.load();
+        int r = w.jobs[i].runs.load(std::memory_order_relaxed);
         if (r > 1) { verif::fail("C10:job-executed-twice", "job " + std::to_string(i) + " ran " + std::to_string(r) + " times (" + when + ") | " + g_scenario); return false; }
         if (must_have_run && r != 1) { verif::fail("C10:job-not-executed", "job " + std::to_string(i) + " ran " + std::to_string(r) + " times when " + when + " | " + g_scenario); return false; }
     }
@@ -150,14 +152,14 @@ static void scenario_graph(Rng& rng) {
             for (unsigned i = 0; i < roots; ++i) spawn(w, depth, fanout, pauses);
             Waiter wt;
             wt.with_externals = externals != 0;
-            wt.ids_at_call = w.next.load();
+            wt.ids_at_call = w.next.load(std::memory_order_relaxed);
             wt.call = dsched::tick();
             pool->loop_until_empty();
             wt.ret = dsched::tick();
             wt.done_at_ret = pool->done();
             if (!externals) {
                 // nothing can be enqueued any more: every job is done and its plain write visible
-                size_t n = std::min(w.next.load(), w.jobs.size());
+                size_t n = std::min(w.next.load(std::memory_order_relaxed), w.jobs.size());
                 for (size_t i = 0; i < n; ++i)
                     if (w.jobs[i].plain != (int)i + 1) { verif::fail("C10:effects-not-visible", "job " + std::to_string(i) + "'s write is not visible after loop_until_empty() | " + g_scenario); break; }
                 if (wt.done_at_ret != n) verif::fail("C10:done-count", "done() = " + std::to_string(wt.done_at_ret) + " after loop_until_empty(), " + std::to_string(n) + " jobs were enqueued and run | " + g_scenario);
@@ -169,10 +171,10 @@ static void scenario_graph(Rng& rng) {
         }
         if (!verif::case_failed()) {
             if (end_mode == 0) {
-                Waiter wt; wt.ids_at_call = w.next.load(); wt.call = dsched::tick();
+                Waiter wt; wt.ids_at_call = w.next.load(std::memory_order_relaxed); wt.call = dsched::tick();
                 pool->loop_until_empty();
                 wt.ret = dsched::tick(); wt.done_at_ret = pool->done();
-                size_t n = std::min(w.next.load(), w.jobs.size());
+                size_t n = std::min(w.next.load(std::memory_order_relaxed), w.jobs.size());
                 if (wt.done_at_ret != n) verif::fail("C10:done-count", "done() = " + std::to_string(wt.done_at_ret) + " after the final loop_until_empty(), " + std::to_string(n) + " jobs | " + g_scenario);
                 check_jobs_once(w, n, true, "the final loop_until_empty() returned");
                 waits.push_back(wt);
@@ -183,7 +185,7 @@ static void scenario_graph(Rng& rng) {
                 if (end_mode == 2) pool->terminate();
             }
         }
-        ids_before_end = std::min(w.next.load(), w.jobs.size());
+        ids_before_end = std::min(w.next.load(std::memory_order_relaxed), w.jobs.size());
         dtor_call = dsched::tick();
         pool.reset();
         dtor_ret = dsched::tick();
@@ -192,13 +194,13 @@ static void scenario_graph(Rng& rng) {
     verif::count("pool_scenarios");
     if (g_serial) { verif::distinct(st.hash); verif::count("schedule_steps", st.steps); verif::count("waits_that_blocked", st.cv_blocks); verif::count("notifies_without_waiter", st.notifies_without_waiter); }
     if (verif::case_failed()) return;
-    size_t n = std::min(w.next.load(), w.jobs.size());
+    size_t n = std::min(w.next.load(std::memory_order_relaxed), w.jobs.size());
     verif::count("jobs_enqueued", n);
     if (!check_jobs_once(w, n, false, "at the end")) return;
     size_t ran = 0;
     for (size_t i = 0; i < n; ++i) {
         const JobRec& j = w.jobs[i];
-        if (j.runs.load()) {
+        if (j.runs.load(std::memory_order_relaxed)) {
             ++ran;
             if (j.end == 0 || j.end > dtor_ret) { verif::fail("C10:destructor:returned-while-job-running", "job " + std::to_string(i) + " was still running when ~ThreadPool returned | " + g_scenario); return; }
         }
@@ -238,14 +240,14 @@ static void scenario_terminate(Rng& rng) {
         w.pool = pool.get();
         unsigned killer = (unsigned)rng.below(njobs ? njobs : 1);
         for (unsigned i = 0; i < njobs; ++i) {
-            size_t id = w.next.fetch_add(1);
+            size_t id = w.next.fetch_add(1, std::memory_order_relaxed);
             bool kill = who == 0 && i == killer;
             unsigned pauses = (unsigned)rng.below(3);
             w.jobs[id].enq_call = dsched::tick();
             pool->enqueue([&w, id, kill, pauses]() {
                 JobRec& me = w.jobs[id];
                 me.start = dsched::tick();
-                me.runs.fetch_add(1);
+                me.runs.fetch_add(1, std::memory_order_relaxed);
                 for (unsigned q = 0; q < pauses; ++q) pause_point();
                 if (kill) w.pool->terminate();
                 for (unsigned q = 0; q < pauses; ++q) pause_point();
@@ -268,11 +270,11 @@ static void scenario_terminate(Rng& rng) {
     verif::count("pool_scenarios");
     verif::count("terminate_scenarios");
     if (g_serial) { verif::distinct(st.hash); verif::count("schedule_steps", st.steps); verif::count("waits_that_blocked", st.cv_blocks); }
-    size_t n = w.next.load();
+    size_t n = w.next.load(std::memory_order_relaxed);
     if (!check_jobs_once(w, n, false, "at the end")) return;
     for (size_t i = 0; i < n; ++i) {
         const JobRec& j = w.jobs[i];
-        if (!j.runs.load()) continue;
+        if (!j.runs.load(std::memory_order_relaxed)) continue;
         for (uint64_t r : { ret1, ret2 })
             if (r && j.start < r && (j.end == 0 || j.end > r)) { verif::fail("C10:loop_until_terminate:returned-while-job-running", "job " + std::to_string(i) + " was running when loop_until_terminate() returned | " + g_scenario); return; }
         if (j.end == 0 || j.end > dtor_ret) { verif::fail("C10:destructor:returned-while-job-running", "job " + std::to_string(i) + " | " + g_scenario); return; }
@@ -295,9 +297,9 @@ static void scenario_rendezvous(Rng& rng) {
         tlx::ThreadPool pool(p);
         w.pool = &pool;
         auto party = [&w, k]() {
-            w.arrived.fetch_add(1);
+            w.arrived.fetch_add(1, std::memory_order_relaxed);
             // a logical-step bound, not a clock: each round lets every other runnable thread run
-            for (unsigned spins = 0; w.arrived.load() < (int)k; ++spins) {
+            for (unsigned spins = 0; w.arrived.load(std::memory_order_relaxed) < (int)k; ++spins) {
                 if (spins > 30000) { w.rendezvous_failed = true; break; }
                 pause_point(true);
             }
@@ -317,11 +319,39 @@ static void scenario_rendezvous(Rng& rng) {
     verif::cover("rendezvous:p=" + std::to_string(p) + ":k=" + std::to_string(k));
 }
 
+//! real threads only: many short rounds of p tiny jobs that write plain slots which the waiter reads
+//! right after loop_until_empty(); whether that is ordered is for TSan to say
+static void scenario_burst(Rng& rng) {
+    unsigned p = 2 + (unsigned)rng.below(3);
+    unsigned rounds = 400;
+    g_scenario = "burst: pool(" + std::to_string(p) + "), " + std::to_string(rounds) + " rounds of " + std::to_string(p) + " tiny jobs";
+    dsched::Sched& S = dsched::S();
+    S.context = "burst";
+    S.begin(rng.next(), 0);
+    {
+        tlx::ThreadPool pool(p);
+        std::vector<int> slot(p, 0);
+        for (unsigned r = 1; r <= rounds; ++r) {
+            for (unsigned i = 0; i < p; ++i) pool.enqueue([&slot, i, r]() { slot[i] = (int)r; });
+            pool.loop_until_empty();
+            for (unsigned i = 0; i < p; ++i)
+                if (slot[i] != (int)r) { verif::fail("C10:effects-not-visible", "round " + std::to_string(r) + ": job " + std::to_string(i) + "'s write is not visible after loop_until_empty() | " + g_scenario); break; }
+            if (pool.done() != (size_t)r * p) { verif::fail("C10:done-count", "done() = " + std::to_string(pool.done()) + " after round " + std::to_string(r) + " | " + g_scenario); break; }
+            if (verif::case_failed()) break;
+        }
+    }
+    S.end();
+    verif::count("pool_scenarios");
+    verif::count("burst_rounds", rounds);
+    verif::cover("burst:p=" + std::to_string(p));
+}
+
 static void run_case(Rng& rng, uint64_t) {
     for (int r = 0; r < 30; ++r) {
         unsigned x = (unsigned)rng.below(10);
         if (x < 6) scenario_graph(rng);
-        else if (x < 9 || !g_serial) scenario_terminate(rng);
+        else if (x < 9) scenario_terminate(rng);
+        else if (!g_serial) scenario_burst(rng);
         else scenario_rendezvous(rng);
         if (verif::case_failed()) break;
     }
